@@ -56,7 +56,7 @@ pub fn c09_scenario(seed: u64, idx: u64) -> Scenario {
         let p = paths[rng.below(paths.len())].clone();
         let mut hs: Vec<(String, String)> = vec![];
         if rng.chance(1, 2) {
-            let o = if !origins.is_empty() && rng.chance(2, 3) { origins[rng.below(origins.len())].clone() } else { "http://other.example".to_string() };
+            let o = if !origins.is_empty() && rng.chance(2, 3) { origins[rng.below(origins.len())].clone() } else if rng.chance(1, 2) { rng.pick(super::real::UNUSUAL_ORIGINS).to_string() } else { "http://other.example".to_string() };
             hs.push(("Origin".into(), o));
             if rng.chance(1, 2) {
                 hs.push(("Access-Control-Request-Method".into(), rng.pick(&["GET", "POST", "PUT", "DELETE", "PATCH"]).to_string()));
@@ -158,9 +158,23 @@ pub fn c11_scenario(seed: u64, idx: u64) -> Scenario {
             }
             _ => Some(ORIGINS[rng.below(ORIGINS.len())].to_string()),
         };
+        let origin = if rng.chance(1, 12) { Some(rng.pick(super::real::UNUSUAL_ORIGINS).to_string()) } else { origin };
         let method = *rng.pick(&["GET", "GET", "OPTIONS", "OPTIONS", "HEAD", "POST", "PUT", "DELETE", "PATCH"]);
         let target = *rng.pick(&["/file.txt", "/", "/missing", "/page", "/form-get-method?a=1"]);
         let mut hs: Vec<(String, String)> = vec![];
+        // a configured origin in the headers that are *not* Origin (with or without an Origin next to them)
+        if !origins.is_empty() && rng.chance(1, 5) {
+            let o = origins[rng.below(origins.len())].clone();
+            let (n, v) = match rng.below(6) {
+                0 => ("Referer", format!("{}/app/index.html", o)),
+                1 => ("Referer", format!("{}/", o)),
+                2 => ("Host", o.split("://").nth(1).unwrap_or("h").to_string()),
+                3 => ("X-Forwarded-Host", o.split("://").nth(1).unwrap_or("h").to_string()),
+                4 => ("Forwarded", format!("host={};proto=https", o.split("://").nth(1).unwrap_or("h"))),
+                _ => ("X-Origin", o.clone()),
+            };
+            hs.push((n.into(), v));
+        }
         if let Some(o) = origin {
             hs.push(("Origin".into(), o));
         }
@@ -186,7 +200,31 @@ pub fn c11_scenario(seed: u64, idx: u64) -> Scenario {
             bytes = format!("{} {} HTTP/1.1\r\nHost: h\r\n", method, target).into_bytes();
             class = "cors_no_origin_unterminated_head";
         }
-        sc.conns.push(Conn::simple(i, if rng.chance(1, 2) { 0 } else { i as u32 }, bytes, class));
+        let mut c = Conn::simple(i, if rng.chance(1, 2) { 0 } else { i as u32 }, bytes, class);
+        // a torn request: the first segment ends inside the Origin value, right behind what could be
+        // a configured origin (the server reads once)
+        if rng.chance(1, 10) {
+            if let Some(pos) = crate::util::find(&c.request.0, b"Origin: ") {
+                let val_start = pos + 8;
+                let val_end = val_start + crate::util::find(&c.request.0[val_start..], b"\r\n").unwrap_or(0);
+                let mut cuts: Vec<usize> = vec![];
+                for o in &origins {
+                    if c.request.0[val_start..val_end].starts_with(o.as_bytes()) && val_start + o.len() < val_end {
+                        cuts.push(val_start + o.len());
+                    }
+                }
+                if val_end > val_start + 1 {
+                    cuts.push(rng.range(val_start + 1, val_end - 1));
+                }
+                let cut = if cuts.is_empty() { 0 } else { *rng.pick(&cuts) };
+                let len = c.request.0.len();
+                if cut > 0 && cut < len {
+                    c.delivery = vec![Seg { len: cut, yields_before: 0 }, Seg { len: len - cut, yields_before: rng.range(1, 6) as u32 }];
+                    c.class = "cors_torn_inside_origin".into();
+                }
+            }
+        }
+        sc.conns.push(c);
     }
     sc
 }
@@ -319,6 +357,7 @@ pub fn c13_scenario(seed: u64, idx: u64) -> Scenario {
     // a byte order mark, compressed siblings, dot files
     let r = format!("outer/{}", rootname);
     for (name, c) in [
+        ("large.bin", Content::Sparse { len: (1 << 20) + 17, seed: 5 }),
         ("download.iso.part", Content::Gen { marker: String::new(), len: 4000, seed: 7, binary: true }),
         ("file.txt.part", Content::Gen { marker: String::new(), len: 120, seed: 8, binary: true }),
         ("d/video.mp4.part", Content::Gen { marker: String::new(), len: 700, seed: 9, binary: true }),
